@@ -1261,7 +1261,7 @@ impl<'a> RefSim<'a> {
                         self.cancel_key(k, None);
                     }
                 }
-                Cmd::ReadTime => {}
+                Cmd::ReadTime | Cmd::Connect { .. } => {}
                 _ if self.terminated => {
                     let ok = match (&o.err, cmd) {
                         (Some(ErrKind::Terminated), _) => true,
